@@ -11,7 +11,7 @@ pub fn info() -> PropInfo {
     PropInfo {
         id: "C01",
         level: "exploration",
-        rule: "proptest: claims tree (depth<=8, Unicode incl. non-BMP, empty containers, u64/i64/full-range f64) x strategy (NoSD/TopLevel/AllLevels/Custom paths in a[i] and a.[i] notation) x type-consistent selection (choice stream) x {Compact,JSON} x {ES256,EdDSA,HS256} x decoys x key binding; oracle: verified_claims == view(mark(U,strategy), select(sel)) [+cnf]. Non-trivial: the strategy hides >= 1 claim. Distinct: 64-bit hash of the case JSON.",
+        rule: "proptest: claims tree (depth<=8, Unicode incl. non-BMP, empty containers, u64/i64/full-range f64) x strategy (NoSD/TopLevel/AllLevels/Custom paths in a[i] and a.[i] notation) x type-consistent selection (choice stream) x {Compact,JSON} x {ES256,EdDSA,HS256} x decoys x key binding; oracle: verified_claims == view(mark(U,strategy), select(sel)) [+cnf]. Non-trivial: the strategy hides >= 1 claim. Distinct: 64-bit hash of the case JSON. One case in six: the issuer instance served another subject (other claims / holder key / decoys / format) before the checked issuance.",
         assumptions: &[
             "serde_json::Value equality is the notion of 'equal claims'",
             "test keys only (3 issuer algorithms, 2 holder key types); jsonwebtoken/ring trusted for signatures",
@@ -35,7 +35,7 @@ pub fn strategy() -> BoxedStrategy<Case> {
                 m
             }
         };
-        C01Case { issue, selection, kb: None, earlier: vec![] }
+        C01Case { issue, selection, kb: None, earlier: vec![], prelude: None }
     });
     prop_oneof![3000 => normal_strategy(), 1 => huge].boxed()
 }
@@ -46,8 +46,11 @@ fn normal_strategy() -> BoxedStrategy<Case> {
         choices_strategy(),
         prop::option::weighted(0.7, (aud_nonce_strategy(), aud_nonce_strategy())),
         prop::option::weighted(0.25, proptest::collection::vec((choices_strategy(), any::<u8>()), 1..3)),
+        // one case in six: the issuer instance has served another subject before (own claims,
+        // holder key, decoy flag and format)
+        prop::option::weighted(0.17, issue_spec_strategy(ClaimCfg::SHORT_F64, HONEST_PATHS, holder_strategy())),
     )
-        .prop_map(|(issue, ch, kb, earlier)| {
+        .prop_map(|(issue, ch, kb, earlier, prelude)| {
             let selection = selection_for(&issue, &ch, SelOpts { allow_null: false });
             let kb = if issue.holder.is_some() { kb.map(|(aud, nonce)| KbArgs { default_alg: nonce.chars().count() % 2 == 1, aud, nonce, key: issue.holder }) } else { None };
             // earlier calls on the same holder: another selection (independent, or the checked
@@ -73,7 +76,7 @@ fn normal_strategy() -> BoxedStrategy<Case> {
                     sdjwt_model::sut::EarlierCall { selection: sel, kb: ekb }
                 })
                 .collect();
-            C01Case { issue, selection, kb, earlier }
+            C01Case { issue, selection, kb, earlier, prelude }
         })
         .boxed()
 }
